@@ -30,8 +30,9 @@ class Node:
 
 
 class CFG:
-    def __init__(self, func, exc_edges=True):
+    def __init__(self, func, exc_edges=True, atomic=True):
         self.func = func
+        self.atomic = atomic
         self.nodes = []
         self.entry = self._new('entry')
         self.exit = self._new('exit')
@@ -76,26 +77,68 @@ class CFG:
         if self.exc_edges and len(self._handlers) > 1:
             self._edge(node, self._handlers[-1], label)
 
+    def _cond(self, test, frontier):
+        """Short-circuit decomposition of a condition into atomic test nodes.
+        Returns (true frontier, false frontier)."""
+        if self.atomic and isinstance(test, ast.BoolOp):
+            if isinstance(test.op, ast.And):
+                tf = frontier
+                falses = []
+                for v in test.values:
+                    tf, f = self._cond(v, tf)
+                    falses += f
+                return tf, falses
+            ff = frontier
+            trues = []
+            for v in test.values:
+                t, ff = self._cond(v, ff)
+                trues += t
+            return trues, ff
+        if self.atomic and isinstance(test, ast.UnaryOp) and isinstance(test.op, ast.Not):
+            t, f = self._cond(test.operand, frontier)
+            return f, t
+        n = self._new('test', test)
+        self._link(frontier, n)
+        self._exc(n)
+        return [(n, 'T')], [(n, 'F')]
+
+    def _ifexp_stmt(self, st, frontier):
+        """`return a if c else b` / `x = a if c else b` as a branch."""
+        v = st.value
+        t, f = self._cond(v.test, frontier)
+        outs = []
+        for val, fr in ((v.body, t), (v.orelse, f)):
+            if isinstance(st, ast.Return):
+                new = ast.Return(value=val)
+            else:
+                new = ast.Assign(targets=st.targets, value=val)
+            ast.copy_location(new, st)
+            new.parent = st.parent
+            new.desugared_from = st
+            outs += self._stmt(new, fr)
+        return outs
+
     def _stmt(self, st, frontier):
         if isinstance(st, ast.If):
-            t = self._new('test', st.test)
-            self._link(frontier, t)
-            self._exc(t)
-            a = self._seq(st.body, [(t, 'T')])
-            b = self._seq(st.orelse, [(t, 'F')]) if st.orelse else [(t, 'F')]
+            t, f = self._cond(st.test, frontier)
+            a = self._seq(st.body, t)
+            b = self._seq(st.orelse, f) if st.orelse else f
             return a + b
+        if self.atomic and isinstance(st, (ast.Return, ast.Assign)) and \
+                isinstance(st.value, ast.IfExp):
+            return self._ifexp_stmt(st, frontier)
         if isinstance(st, ast.While):
-            t = self._new('test', st.test)
-            self._link(frontier, t)
-            self._exc(t)
+            head = self._new('stmt', ast.Pass())
+            self._link(frontier, head)
+            t, f = self._cond(st.test, [(head, '')])
             after = []
-            self._loops.append((t, after))
-            body_end = self._seq(st.body, [(t, 'T')])
+            self._loops.append((head, after))
+            body_end = self._seq(st.body, t)
             self._loops.pop()
             for n, lab in body_end:
-                self._edge(n, t, lab or 'loop')
+                self._edge(n, head, lab or 'loop')
             const_true = isinstance(st.test, ast.Constant) and st.test.value
-            out = [] if const_true else [(t, 'F')]
+            out = [] if const_true else f
             if st.orelse:
                 out = self._seq(st.orelse, out)
             return out + after
@@ -269,7 +312,7 @@ class CFG:
         out = []
         maxvisit = {}
         for n in self.nodes:
-            maxvisit[n.id] = 2 if n.kind in ('iter', 'test') else 1
+            maxvisit[n.id] = 2 if (n.kind in ('iter',) or isinstance(n.ast, ast.Pass)) else 1
         targets = {self.exit.id}
         if to_raise:
             targets.add(self.raise_exit.id)
@@ -299,10 +342,10 @@ class CFG:
 _cfg_cache = {}
 
 
-def cfg_of(func, exc_edges=True):
-    key = (id(func), exc_edges)
+def cfg_of(func, exc_edges=True, atomic=True):
+    key = (id(func), exc_edges, atomic)
     if key not in _cfg_cache:
-        _cfg_cache[key] = CFG(func, exc_edges)
+        _cfg_cache[key] = CFG(func, exc_edges, atomic)
     return _cfg_cache[key]
 
 
